@@ -314,7 +314,7 @@ def _same_fn(a, b, bits):
                     continue
                 for Y in (0, 1, 2, 5, 63):
                     H = 64
-                    env = {"X": X, "Y": Y, "WIDTH": W, "HEIGHT": H, "N": ((W * bits + 7) // 8) * H + 3}   # N: an oversized buffer
+                    env = {"X": X, "Y": Y, "WIDTH": W, "HEIGHT": H, "N": ((W * bits + 7) // 8) * H + 3 * H + 5}   # N: an oversized buffer
                     f = lambda t: subst(t, lambda n: C(env[n[1]]) if n[0] == "const" and n[1] in env else None)
                     if _eval_int(fold(f(a)), {}) != _eval_int(fold(f(b)), {}):
                         return False
